@@ -82,7 +82,12 @@ pub const PROPS: &[Prop] = &[
         quick: 12000,
         thorough: 100_000,
         rule: "net family on real kernel sockets under the deterministic scheduler: UnixStream::pair, UnixListener + connect, loopback TcpListener + connect (accept and connect inside the actors), optionally through split() halves, 1-3 connections with payloads of 0-512 KiB written in chunks of 1 B-64 KiB and read with buffers of 1 B-128 KiB (at most ~300 operations per side) until end of stream; UdpSocket and UnixDatagram with 1-19 datagrams of 1-3 KB; writer/reader each a thread (proxy coroutine path) or a coroutine; 1-3 workers; generated schedule. Non-trivial = at least one pre-emption AND (a writer blocked on a full socket buffer OR datagram transport OR a pre-emption inside src/io/sys/unix). Distinct = distinct hash of (program, config, schedule).",
-        units: &[Unit { fam: "net", label: "net", share: 1, strategy: net::strategy_net }],
+        units: &[
+            Unit { fam: "net", label: "net", share: 3, strategy: net::strategy_net },
+            // "complete ... for every timing": reads with time-outs racing the data (the netto
+            // family's byte conservation: written = returned by the reads + left in the socket)
+            Unit { fam: "netto", label: "timed-reads", share: 1, strategy: net::strategy_netto },
+        ],
     },
     Prop {
         id: "C18",
